@@ -27,7 +27,9 @@ theorem absolute_asRef (x : Toks) : absolute (asRefPath ++ x) = true := rfl
 theorem absolute_borrow (x : Toks) : absolute (borrowPath ++ x) = true := rfl
 
 theorem macroHeadAbs_implParams (bv : Bool) (ps : List GParam) : macroHeadAbsolute (implParams .generic bv ps) = true := by
-  cases bv <;> simp [macroHeadAbsolute, implParams, implTParam, entraitT, absolute_sync, absolute_send, absolute_static]
+  unfold macroHeadAbsolute
+  rw [macroParam_generic]
+  cases bv <;> simp [implTParam, entraitT, absolute_sync, absolute_send, absolute_static]
 
 theorem bodyShape_of_static (attr : Toks) (item : Item) (hi : ∀ t, item ≠ .trait t) (m : GenMember)
     (h : staticBodyOk attr item m = true) : bodyShapeOk attr item m = true := by
@@ -237,7 +239,7 @@ theorem T_C19 (v : Variant) (attr : Toks) (item : Item) (out : Out)
             cases b <;> cases traitContainsAsync t <;>
               simp [traitBoundOk, absolute_sync, absolute_static, absolute_send, absolute_asRef, absolute_borrow]
     rw [hbodies, hpred]
-    simp [traitImplBlock, concreteFn, macroHeadAbsolute, implTParam, entraitT, absolute_sync, absolute_static]
+    simp [traitImplBlock, concreteFn, macroHeadAbs_implParams]
 
 
 /-- non-vacuity: an async generic trait delegated by reference — `AsRef<dyn Tr<..> + Sync>` is absolute -/
